@@ -126,6 +126,12 @@ def run(ck):
                 for q in vpaths:
                     it = q.interp
                     lsite = "%s:%s:%d" % (fit.module.relpath, fit.qualname, ep_loop.lineno)
+                    # every epoch's batch loop runs over this epoch's batches: an iterator object (zip, generator) that an earlier
+                    # epoch already walked through is empty - the epoch then has no batch events and trains nothing
+                    ex_ = [e for e in it.exhausted if any(fn_.endswith(".fit") for fn_ in e[2])]
+                    ck.check(not ex_, "C12.R3", "each epoch's batch loop runs over a fresh iterator/%s [%s]" % (cls, path_tag(q)), ex_[0][0] if ex_ else lsite,
+                             "a loop inside fit runs over a %s object that an earlier iteration of the epoch loop already consumed: from the second epoch on there are no batches (no batch events, no training)"
+                             % (ex_[0][1] if ex_ else ""), key="C12.R3|fit|exhausted iterator")
                     li = [l for l in it.loops if l.get("node") is ep_loop.ast]
                     if len(li) != 1:
                         ck.undecided("C12.R3", "epoch range/%s" % cls, lsite, "the epoch loop was entered %d times on this path" % len(li))
@@ -179,7 +185,7 @@ def run(ck):
                                 ck.check(True if (b_t is not None and b_t == T.ZERO) else None, "C12.R3", "first batch of an epoch is batch 0/%s" % cls, esite, "the first batch of an epoch is announced as batch %r" % (b_t,))
                             else:
                                 at = b_t.single_atom() if b_t is not None else None
-                                ck.check(True if (at is not None and isinstance(at, T.Sym) and at.name.startswith("enum_i@")) else None, "C12.R3", "later batches numbered consecutively from 0/%s" % cls, esite,
+                                ck.check(True if (at is not None and isinstance(at, T.Sym) and (at.name.startswith("enum_i@") or at.name.startswith("i@"))) else None, "C12.R3", "later batches numbered consecutively from 0/%s" % cls, esite,
                                          "a later batch is announced as batch %r; expected its position in the epoch (counted from 0)" % (b_t,))
                         else:
                             ck.check(b_t is not None and b_t == cur_b, "C12.R3", "on_batch_end batch number/%s" % cls, esite, "on_batch_end receives batch %r after on_batch_start announced %r" % (b_t, cur_b))
